@@ -16,6 +16,7 @@ CHECKS = {
  "C06": "The datagram is 2 free bytes plus a tail of symbolic length (0..65505): one query per path covers every length and content; the three accepted lengths are re-run with all bytes free for the unknown-model clause.",
  "C08": "get_state / get_shutter_state / get_breeze_state are executed against a reply whose parsed prefix is fully symbolic plus a tail of symbolic length; every field of the returned object is compared with the reference decoder.",
  "C09": "Every operation is executed with replies of every length 0..101 (all bytes free) and with a symbolic-length tail at each step; the set of outcomes (returned class / exception class / frames written / success flag) is computed over all feasible paths.",
+ "C10": "get_schedules is executed (1) on one record with all bytes free and everything inlined, (2) on k records with the day/duration/next-run functions replaced by argument-recording summaries, (3) on the record create_schedule itself emits, listed back under an arbitrary slot id; zone row and instants symbolic.",
  "C11": "time_to_hexadecimal_timestamp and its decoder are executed with 4 free digits, a free clock instant and a symbolic row of the tz table per zone; the encoded value must be the epoch second of that local time on the local date of the clock read and decode back to the same text; free ASCII text of 0..6 (8) characters that is not HH:MM must raise.",
  "C12": "Weekday encoders/decoder executed on a symbolic single day, a set with 7 free membership bits, lists/tuples of symbolic days and a symbolic mask; bit-exactness, rejection and the round trip are refuted per path.",
  "C13": "pretty_next_run is executed per (zone, day set) with symbolic start digits, clock instant and zone row; the text is compared with the earliest-occurrence rule on the LOCAL weekday and minute.",
